@@ -29,7 +29,8 @@ REQUIRED_THEOREMS = [
     "Acn.C20.time_query_params", "Acn.C20.civil_roundtrip", "Acn.C20.days_roundtrip",
     "Acn.C20.calendar_succ", "Acn.C20.weekday_spec", "Acn.C20.parse_format", "Acn.C20.same_instant",
     "Acn.C20.parse_http_date_same_instant", "Acn.C20.http_date_roundtrip", "Acn.C20.parse_dates_faithful",
-    "Acn.C20.zone_off_spec", "Acn.C20.domain_years", "Acn.C20.parse_sound",
+    "Acn.C20.zone_off_spec", "Acn.C20.domain_years", "Acn.C20.parse_sound", "Acn.C20.parse_unpadded_day",
+    "Acn.C20.parse_length",
 ]
 BUDGET = {"quick": 1500, "thorough": 30000, "search": 8000}
 TRUSTED = [
@@ -41,8 +42,13 @@ TRUSTED = [
 ]
 ASSUMPTIONS = [
     "whole seconds; formatting domain = UTC years 1000-9999 (glibc %Y does not pad smaller years)",
-    "the model's parser is the strict RFC-1123 grammar with case-insensitive names; strptime's extra "
-    "leniency (one-digit fields, runs of white space) is outside the property and not generated",
+    "the model's parser accepts the RFC-1123 grammar with case-insensitive names in two shapes: the canonical 29 characters "
+    "and the 28 characters with a ONE-digit day of month (RFC 822/1123 `1*2DIGIT`; strptime's %d); what CPython's strptime "
+    "accepts beyond that (measured on 3.12: a one-digit hour / minute / second; a run of one or more white-space characters — "
+    "blank, TAB, LF, NBSP ... — wherever the format has a blank; non-ASCII decimal digits where the pattern is \\d) is OUTSIDE "
+    "the model: such strings are generated (`outside` items of the date batches, `lenient` request cases, top-level fields "
+    "only) and judged by the oracle alone — whatever the client accepts must denote the instant an independent token-wise "
+    "reading gives; the year is four digits on both sides",
     "a `next` cycle never ends in Python; it is exercised with a transport cut-off = model fuel",
     "a `timestamps` value is a list of strings in a dict at the top level of the document (what ACN-Data serves); "
     "non-list / non-string stamps and time series nested deeper are not generated; the sample values next to a "
@@ -60,8 +66,11 @@ RULE = ("per case one client call: get_sessions / get_sessions_by_time (count on
         "different (or malformed) interior, constant lag, sub-sampled, common prefix / suffix, one shared end, "
         "reversed, shuffled, every sample twice, empty, or unrelated; 12% of the documents of a server reuse the "
         "series of an earlier document (under their own zone, half of them with one series changed inside); "
-        "independently malformed stamps), or a batch of "
-        "http_date/parse_http_date round trips and malformed date strings, or a sweep of the calendar model against "
+        "independently malformed stamps; on 25% of the request cases the stamps with a day of month 01..09 — top-level "
+        "fields and time-series stamps — are written without the leading zero, all of them or each with probability 1/2; "
+        "on 4% some top-level stamps are written in a form only strptime's leniency accepts), or a batch of "
+        "http_date/parse_http_date round trips, un-padded days, malformed date strings and their neighbours (two blanks for "
+        "the zero, a lone 0, TAB / NBSP / double blanks, one-digit hour / minute / second, 3- and 5-digit years), or a sweep of the calendar model against "
         "datetime.date (quick: both ends of the datetime range + random 20 000-day windows; thorough: every day of "
         "years 1-9999); non-trivial = at least two pages or an "
         "empty page or a fault on the chain, or a by_time call with a bound, or a date batch touching a DST "
@@ -136,6 +145,30 @@ def epoch_of_rfc(s):
         return t if rfc(t).lower() == s.lower() or _same_but_weekday(rfc(t), s) else None
     except Exception:
         return None
+
+
+def unpad(s):
+    """the stamp without the first digit of its day of month (for a day 01..09: the un-padded RFC-1123 form)"""
+    return s[:5] + s[6:]
+
+
+def lenient_epoch(s):
+    """Independent token-wise reading of the strings OUTSIDE the model that strptime's pattern still matches: runs of
+    white space where the format has a blank, a one-digit day / hour / minute / second, non-ASCII digits.  None if the
+    tokens are not those of an RFC-1123 date."""
+    if not isinstance(s, str):
+        return None
+    p = s.split()
+    if len(p) != 6 or len(p[0]) != 4 or p[0][3] != "," or p[5].upper() != "GMT" or len(p[3]) != 4:
+        return None
+    hms = p[4].split(":")
+    try:
+        if len(hms) != 3 or not all(1 <= len(x) <= 2 and x.isdecimal() for x in hms + [p[1]]) or not p[3].isdecimal():
+            return None
+        canon = "%s %02d %s %04d %02d:%02d:%02d GMT" % (p[0], int(p[1]), p[2], int(p[3]), int(hms[0]), int(hms[1]), int(hms[2]))
+    except ValueError:
+        return None
+    return epoch_of_rfc(canon)
 
 
 def _same_but_weekday(a, b):
@@ -317,6 +350,37 @@ def _malformed(rng, t):
            s.replace(",", ";"), s.replace(":", "."), s[:8] + "Foo" + s[11:], "", "GMT", "2020-05-01T10:00:00Z",
            "Tue, 01 May 2018 10:00:00 +0000", s.replace(" ", "-"), s[:12] + "20x8" + s[16:], s[:8] + "May" + s[11:],
            s[:5] + "29 Feb 2000" + s[16:], s[:5] + "29 Feb 1900" + s[16:], s[:5] + "29 Feb 2100" + s[16:]]
+    # neighbours of the un-padded day of month (all decided by the model as by strptime): the 28-character form itself (a
+    # day 01..09 loses its zero, a day 10..31 its first digit: another valid date), in other letter case, with a lone 0, a
+    # letter, nothing or a third digit for the day, with an impossible day / time, truncated or prolonged, and the other
+    # 28-character strings (a 3-digit year, no blank before GMT, a two-letter weekday) and the 5-digit year
+    u = unpad(s)
+    out += [u, u, u.lower(), u.upper(), s[:5] + "0" + s[7:], s[:5] + "x" + s[7:], s[:5] + s[7:], s[:5] + "0" + s[5:],
+            s[:4] + u[5:], u[:4] + "0" + u[4:], u[:10] + "2023" + u[14:] if u[7:10] == "Feb" else u[:7] + "Feb" + u[10:],
+            u[:16] + "24" + u[18:], u[:22] + "60" + u[24:], u[:-1], u + " ", u[:-3] + "UTC", "Mon" + u[3:], "Xyz" + u[3:],
+            s[:12] + s[13:], s[:12] + "1" + s[12:], s[:25] + s[26:], s[1:], u[:7] + "Foo" + u[10:], u.replace(",", ";")]
+    return out
+
+
+def _outside(rng, t):
+    """Strings strptime's pattern accepts but the model does not (ASSUMPTIONS): never given to the model's verdict."""
+    s = rfc(t)
+    u = unpad(s)
+    out = [s[:5] + " " + s[6:],                    # two blanks for the first digit of the day ("Wed,  1 Jan": %d matches " 1")
+           s[:5] + "  " + s[6:], s[:4] + "\t" + s[5:], s[:4] + "  " + s[5:], s[:7] + "  " + s[8:], s[:11] + "\t" + s[12:],
+           s[:16] + "  " + s[17:], s[:25] + "  " + s[26:], s[:25] + "\n" + s[26:], s[:4] + "\xa0" + s[5:], u[:6] + "  " + u[7:],
+           s.replace(" ", "  "), u.replace(" ", " \t")]
+    if s[17] == "0":
+        out += [s[:17] + s[18:], u[:16] + u[17:]]    # one-digit hour
+    if s[20] == "0":
+        out += [s[:20] + s[21:]]
+    if s[23] == "0":
+        out += [s[:23] + s[24:], u[:22] + u[23:]]
+    if s[17] == "0" and s[20] == "0" and s[23] == "0":
+        out += [u[:16] + u[17:19] + u[20:22] + u[23:]]
+    if s[5] in "12":
+        out += [s[:6] + "\u0663" + s[7:]]           # ARABIC-INDIC DIGIT THREE as the second digit of the day
+    out += [s[:15] + "\u0968" + s[16:]]             # DEVANAGARI DIGIT TWO as the last digit of the year
     return out
 
 
@@ -436,7 +500,12 @@ def _gen_dates(rng):
             items.append({"dt": a, "zone": rng.choice(ZONES)})
         else:
             t = int(_gen_instant(rng, None))
-            items.append({"s": rng.choice(_malformed(rng, t) + [rfc(t)] * 6), "zone": rng.choice(ZONES)})
+            if rng.random() < 0.4:                  # a day of month 1..9
+                t -= DAY * max(0, int(rfc(t)[5:7]) - rng.randint(1, 9))
+            if rng.random() < 0.12:
+                items.append({"s": rng.choice(_outside(rng, t)), "zone": rng.choice(ZONES), "outside": True})
+                continue
+            items.append({"s": rng.choice(_malformed(rng, t) + [rfc(t)] * 6 + [unpad(rfc(t))] * 8), "zone": rng.choice(ZONES)})
     return {"kind": "dates", "items": items}
 
 
@@ -474,8 +543,33 @@ def corpus():
                                                         ["pilotSignal", {"pilot": [8, 8, 8], "timestamps": [rfc(tA), rfc(tA + 10)[:-4], rfc(tA + 20)]}]]],
                    "next": "last", "href": None}],
         "cutoff": 3}
+    tC = 1523111840                          # Sat, 07 Apr 2018 14:37:20 GMT — a one-digit day of month
+    du = lambda i, t, z="America/Los_Angeles": [[k, unpad(v) if isinstance(v, str) and len(v) == 29 else v] for k, v in d(i, t, z)]
+    seru = lambda name, t, offs, which: [name, {SERIES_VALUE_KEY[name]: [1.0] * len(offs),
+                                                "timestamps": [unpad(rfc(t + o)) if j in which else rfc(t + o) for j, o in enumerate(offs)]}]
+    unpadded_case = {
+        # a server that does not pad the day of month (RFC 1123 `1*2DIGIT`): top-level stamps and time-series stamps, all of
+        # a series / only an interior one / across the change from the 9th to the 10th; next to a lone-zero day (a string)
+        "kind": "sessions", "base": BASE, "site": "caltech", "unpadded": 9,
+        "args": {"cond": None, "project": None, "sort": None, "timeseries": True},
+        "pages": [{"kind": "page", "items": [
+            du(0, tC) + [seru("chargingCurrent", tC, [0, 10, 20], {0, 1, 2}), seru("pilotSignal", tC, [0, 10, 20], {1})],
+            du(1, tC + 2 * DAY, "Australia/Lord_Howe") + [seru("chargingCurrent", tC + 2 * DAY, [0, 40000, 80000], {0, 1, 2}),
+                                                          ["note", "Sat, 0 Apr 2018 14:37:20 GMT"]]],
+                   "next": "last", "href": None}],
+        "cutoff": 3}
     return [
-        series_case, bad_inside,
+        series_case, bad_inside, unpadded_case,
+        {"kind": "dates", "items": [{"s": "Sat, 7 Apr 2018 14:37:20 GMT", "zone": "America/Los_Angeles"},
+                                    {"s": "sat, 7 apr 2018 14:37:20 gmt", "zone": "UTC"},
+                                    {"s": "Sat, 0 Apr 2018 14:37:20 GMT", "zone": "UTC"},
+                                    {"s": "Thu, 1 Jan 1000 00:00:00 GMT", "zone": "UTC"},
+                                    {"s": "Fri, 9 Feb 2024 23:59:60 GMT", "zone": "UTC"},
+                                    {"s": "Sat,  7 Apr 2018 14:37:20 GMT", "zone": "Asia/Kolkata", "outside": True},
+                                    {"s": "Sat, 07 Apr 2018 4:37:20 GMT", "zone": "Asia/Kolkata", "outside": True},
+                                    {"s": "Sat, 7 Apr 2018 4:7:2 GMT", "zone": "Asia/Kolkata", "outside": True},
+                                    {"s": "Sat, 07 Apr 218 14:37:20 GMT", "zone": "UTC"},
+                                    {"s": "Sat, 07 Apr 20180 14:37:20 GMT", "zone": "UTC"}]},
         # three pages, the middle one empty, identical-looking sessions, spring-forward instants
         {"kind": "sessions", "base": BASE, "site": "caltech",
          "args": {"cond": None, "project": None, "sort": None, "timeseries": False},
@@ -526,20 +620,43 @@ DEFAULTS = {"cond": None, "project": None, "sort": None, "timeseries": False, "c
 
 
 def _unpad_days(rng, case):
-    """RFC 1123 writes the day of month as 1*2DIGIT: on ~8 % of the request cases the top-level stamps whose day is 01..09 are
-    (each with probability 1/2) written WITHOUT the leading zero, as a server or proxy that does not pad would send them.  The
-    Lean parser is the canonical 29-character form, so these cases are judged by the oracle alone (`unpadded`)."""
-    if case.get("kind") in ("sessions", "by_time") and rng.random() < 0.08:
+    """RFC 1123 writes the day of month as 1*2DIGIT: on ~25 % of the request cases the stamps whose day is 01..09 — top-level
+    fields AND time-series stamps — are written WITHOUT the leading zero, as a server or proxy that does not pad would send
+    them (all of them, or each with probability 1/2).  The model reads both shapes.  On a further ~4 % some top-level stamps
+    are rewritten into a form only strptime's leniency accepts (`lenient`: outside the model, judged by the oracle alone)."""
+    if case.get("kind") not in ("sessions", "by_time"):
+        return case
+    r = rng.random()
+    if r < 0.25:
+        p = rng.choice([1.0, 0.5])
+        can = lambda v: isinstance(v, str) and len(v) == 29 and v[5] == "0" and epoch_of_rfc(v) is not None and rng.random() < p
+        n = 0
+        for pg in case.get("pages", []):
+            for d in pg.get("items", []) if pg.get("kind") == "page" else []:
+                for f in d:
+                    v = f[1]
+                    if can(v):
+                        f[1] = unpad(v)
+                        n += 1
+                    elif isinstance(v, dict) and isinstance(v.get("timestamps"), list):
+                        st = v["timestamps"]
+                        for k in range(len(st)):
+                            if can(st[k]):
+                                st[k] = unpad(st[k])
+                                n += 1
+        if n:
+            case["unpadded"] = n
+    elif r < 0.29:
         hit = False
         for pg in case.get("pages", []):
             for d in pg.get("items", []) if pg.get("kind") == "page" else []:
                 for f in d:
                     v = f[1]
-                    if isinstance(v, str) and len(v) == 29 and v[5] == "0" and epoch_of_rfc(v) is not None and rng.random() < 0.5:
-                        f[1] = v[:5] + v[6:]
+                    if isinstance(v, str) and len(v) == 29 and epoch_of_rfc(v) is not None and rng.random() < 0.4:
+                        f[1] = rng.choice(_outside(rng, epoch_of_rfc(v)))
                         hit = True
         if hit:
-            case["unpadded"] = True
+            case["lenient"] = True
     return case
 
 
@@ -881,8 +998,8 @@ def _doc_zones(case):
 
 
 def model_request(case):
-    if case.get("unpadded"):
-        return None          # oracle only: the model's parser is the canonical 29-character form
+    if case.get("lenient"):
+        return None          # oracle only: top-level stamps in a form outside the model (ASSUMPTIONS) that strptime accepts
     if case["kind"] == "calendar":
         return {"op": "calendar", "from": case["from"], "n": case["n"]}
     if case["kind"] == "dates":
@@ -945,6 +1062,8 @@ def compare(case, obs, model):
             if not m["domain"]:
                 out.append(f"item {i}: generated outside the formatting domain")
                 continue
+            if case["items"][i].get("outside"):
+                continue         # a form outside the model that strptime's leniency may accept: the oracle judges it
             if a["s"] != m["s"]:
                 out.append(f"item {i}: http_date impl={a['s']!r} model={m['s']!r}")
             if a["r"] != m["r"]:
@@ -1018,6 +1137,8 @@ def _check_dt(fails, where, s, got, zone, zones_seen=None):
     """got = [epoch, off, y, mo, d, h, mi, s] observed for the RFC string s in `zone`."""
     t = epoch_of_rfc(s)
     if t is None:
+        t = lenient_epoch(s)     # accepted by the client although outside the model: it must still be THAT instant
+    if t is None:
         return
     if got[0] != t:
         fails.append({"kind": "time_not_same_instant", "detail": f"{where}: {s!r} is {t}, parsed datetime is {got[0]}"})
@@ -1035,6 +1156,16 @@ def _check_dt(fails, where, s, got, zone, zones_seen=None):
         if to != got[1]:
             zo = _zi_offset(zone, t)
             fails.append({"kind": "time_wrong_zone", "detail": f"{where}: offset {got[1]} but {zone} is at {to} at {t} (zoneinfo: {zo})"})
+
+
+def _must_parse(s):
+    """s is exactly the RFC-1123 rendering of an instant of the years 1-9999, or that rendering without the leading
+    zero of a day of month 01..09"""
+    t = epoch_of_rfc(s)
+    if t is None:
+        return False
+    c = rfc(t)
+    return (s == c or (c[5] == "0" and s == unpad(c))) and 1 <= int(c[12:16])
 
 
 def _walk(case):
@@ -1111,7 +1242,7 @@ def oracle(case, obs):
                 _check_dt(fails, f"item {i}", r["s"], r["r"], it["zone"])
                 if r["rzone"] != it["zone"]:
                     fails.append({"kind": "time_wrong_zone", "detail": f"item {i}: result zone {r['rzone']} requested {it['zone']}"})
-            elif epoch_of_rfc(r["s"]) is not None and rfc(epoch_of_rfc(r["s"])) == r["s"] and 1 <= int(r["s"][12:16]):
+            elif _must_parse(r["s"]):
                 fails.append({"kind": "rfc1123_string_not_parsed", "detail": f"item {i}: {r['s']!r}"})
         return fails
 
@@ -1173,7 +1304,7 @@ def oracle(case, obs):
             ov = of.get(key)
             if isinstance(v, str):
                 t = epoch_of_rfc(v)
-                if t is not None and (rfc(t) == v or (rfc(t)[5] == "0" and rfc(t)[:5] + rfc(t)[6:] == v)):
+                if t is not None and (rfc(t) == v or (rfc(t)[5] == "0" and unpad(rfc(t)) == v)):
                     if ov is None or "d" not in ov:
                         fails.append({"kind": "rfc1123_string_not_parsed", "detail": f"session {k} field {key}: {v!r} stayed {ov}"})
                     else:
@@ -1236,6 +1367,10 @@ def features(case, obs):
     if case["kind"] == "dates":
         for it, r in zip(case["items"], obs["results"]):
             out.append("date:" + ("roundtrip" if "dt" in it else ("parsed" if r["r"] is not None else "rejected")))
+            if it.get("outside"):
+                out.append("date:outside-model-" + ("accepted" if r["r"] is not None else "rejected"))
+            elif "s" in it and len(it["s"]) == 28:
+                out.append("date:28-chars-" + ("parsed" if r["r"] is not None else "rejected"))
             if "dt" in it and _near_transition(it["zone"], it["dt"]["t"]):
                 out.append("date:dst-transition")
         return out
@@ -1252,6 +1387,16 @@ def features(case, obs):
         out.append(f"omitted:{k}")
     if case.get("unpadded"):
         out.append("stamp:unpadded-day")
+        for p in case.get("pages", []):
+            for d in p.get("items", []):
+                for k, v in d:
+                    if isinstance(v, str) and len(v) == 28 and epoch_of_rfc(v) is not None:
+                        out.append("stamp:unpadded-day:top-level")
+                    elif isinstance(v, dict) and any(isinstance(x, str) and len(x) == 28 and epoch_of_rfc(x) is not None
+                                                     for x in v.get("timestamps", [])):
+                        out.append("stamp:unpadded-day:time-series")
+    if case.get("lenient"):
+        out.append("stamp:outside-model")
     if "pages" in case and not obs["is_count"] and case["site"] in SITES:
         chain = len(obs["gets"])
         out.append(f"requests:{min(chain, 7)}")
